@@ -11,7 +11,8 @@ EXPLANATION = (
     "accept/event/worker loop root; loop handlers do not end the loop; a worker always returns to the pool; "
     "everything after the receive in Daemon.handleRequest is under a catch-all that replies under exactly the documented "
     "conditions (finite truth table over the exception-class lattice); unserialisable exceptions are replaced; every "
-    "handshake call site is contained. Not decided: correctness of the replies to well-behaved clients, accounting values, "
+    "handshake call site is contained; the peer-controlled annotation walk terminates (unsigned lengths, positive advance, ordering "
+    "test as loop condition). Not decided: correctness of the replies to well-behaved clients, accounting values, "
     "liveness against a peer that stalls without disconnecting."
 )
 
